@@ -210,6 +210,28 @@ def main(tier, seed, scale=1.0):
             continue
         chk.held("wide:" + c.cid, True, 1)
         chk.count("wide-tuple")
+    if tier == "thorough":
+        # variant positions beyond 16 bits (takes rustc minutes): different variants still feed different data
+        from .. import harness as H
+        nv = 65538
+        text = "#[derive(::educe::Educe)]\n#[educe(Hash)]\npub enum Ty {\n%s}\n" % "".join("    C%d,\n" % i for i in range(nv))
+        drive = ("        %sbegin(); %sobs(\"huge\", \"huge\", 0, -1, &format!(\"{}\\t{}\\t{}\\t{}\", %sflat_hash(&Ty::C0), %sflat_hash(&Ty::C65536), %sflat_hash(&Ty::C1), %sflat_hash(&Ty::C65537)));"
+                 % (RT, RT, RT, RT, RT, RT))
+        hc = BH.Case("huge", None, text, [], drive=drive, info={})
+        hc.module = lambda c=hc: H.module(c.cid, c.text + "pub fn run() {\n    %sguarded(\"%s\", || {\n%s\n    });\n}\n" % (RT, c.cid, c.drive))
+        obs, dropped, crashed, _, _ = BH.execute("c05h", [hc])
+        o = obs.get("huge")
+        if "huge" in dropped or o is None or not o.recs:
+            chk.inconc("huge-enum-not-run")
+        else:
+            got = o.recs[0][3]
+            chk.evaluations += 1
+            if len(set(got)) != 4:
+                chk.violation("tag-collision|huge-enum", "variants %s of a 65538-variant enum feed %s: different variants feed identical data"
+                              % (["C0", "C65536", "C1", "C65537"], got), {"note.txt": "enum Ty { C0, .., C65537 } with #[educe(Hash)]"})
+            else:
+                chk.held("huge-enum", True, 1)
+                chk.count("huge-enum")
     # differential family: parameter-free requests over std field types against std's derives
     tw = TW.cases(seed, PROP, max(40, n // 4), "hash")
     obs, dropped, crashed, _, _ = BH.execute("c05w", tw)
